@@ -18,7 +18,7 @@ def sname(d):
 
 
 def shapes(tier):
-    S = [shape(0, 0, nts=0, nmap=0, ngrp=0), shape(0, 1, trail=2), shape(1, 2, nts=2, tsl0=8, tsl1=0), shape(2, 1, nts=1, tsl0=1, nter=1, ngrp=2, gw=0, gh=3, gnl=0),
+    S = [shape(0, 0, nts=0, nmap=0, ngrp=0), shape(3, 0, nts=0, nmap=0, ngrp=0), shape(0, 1, trail=2), shape(1, 2, nts=2, tsl0=8, tsl1=0), shape(2, 1, nts=1, tsl0=1, nter=1, ngrp=2, gw=0, gh=3, gnl=0),
          shape(2, 2, nts=2, tsl0=0, tsl1=3, nmap=0, ngrp=1, gw=2, gh=1, gnl=2)]
     if tier == "thorough":
         S += [shape(3, 2), shape(4, 1, nts=3, tsl0=2, tsl1=8), shape(5, 2, nmap=2, nter=1), shape(0, 3, ngrp=2, gw=2, gh=2, gnl=3, trail=5), shape(6, 1, nts=0, ngrp=0)]
@@ -42,6 +42,9 @@ def queries(tier):
                         desc="map byte string of shape %s, all other bytes symbolic: ReadMap consumes it, Write reproduces the consumed bytes up to the flag/unknown words, re-read equal, second write identical" % sname(d)))
         qs.append(Query("object_" + sname(d), "C06_map.cpp", "h_object_roundtrip", d, unwind=uw, timeout=300,
                         desc="Map object of shape %s with all scalar fields symbolic: Write then ReadMap gives an equal map and consumes everything" % sname(d)))
+    for d in shapes(tier)[2:4]:
+        qs.append(Query("write_once_symbolic_marker_" + sname(d), "C06_map.cpp", "h_bytes_write_once", dict(d, SYMMARK=None), unwind=maxlen(d) + 24, timeout=300,
+                        desc="as write_once, but the ten 'TILE SET' marker bytes and the two repeated version tags are symbolic: whatever the reader accepts is written back byte for byte" ))
     eshape = shape(5, 1, nts=2, tsl0=1, tsl1=0, ngrp=0)
     for e, en in enumerate(["SetCellType", "SetLavaPossible", "SetVersionTag"]):
         qs.append(Query("edit_%s_32x1" % en, "C06_map.cpp", "h_edit", dict(eshape, EDIT=e), unwind=maxlen(eshape) + 24, timeout=900,
